@@ -722,11 +722,18 @@ func main() {
 	if uint32(p9p.NOFID) != 0xFFFFFFFF || p9p.QTDIR != 0x80 || p9p.OREAD != 0 {
 		panic("NOFID/QTDIR/OREAD differ from the constants of Model/Cfs.v")
 	}
-	r.Rule = "random sequences of 3..30 Attach/Walk/Open/OpenDir/Create/Stat/WStat/Clunk/Remove on CFileSys(spy(SFileSys(scripted FS))), name lists over {a,b,dir1,x,'.','','..',x/y,a\\b,random bytes} incl. (dir1 .), (x ..), (.), the FS answering each call by script (complete/partial/failed walks, failing opens/creates/clunks), every sequence closed by clunking or removing all live entries. Non-trivial: more than one operation; distinct by canonical case text."
+	r.Rule = "random sequences of 3..30 Attach/Walk/Open/OpenDir/Create/Stat/WStat/Clunk/Remove on CFileSys(spy(SFileSys(scripted FS))), name lists over {a,b,dir1,x,'.','','..',x/y,a\\b,random bytes} incl. (dir1 .), (x ..), (.), the FS answering each call by script (complete/partial/failed walks, failing opens/creates/clunks), every sequence closed by clunking or removing all live entries; plus long histories (one attach, 85000..1200000 walk(+clunk/remove) rounds from the live root, 72000..960000 fid allocations, some entries kept live) described by three numbers and expanded identically by harness and model, compared on the fid of every call. Non-trivial: more than one operation; distinct by canonical case text."
 	rng := prng.New(r.Seed)
 	n := r.N(600, 15000)
 	for i := 0; i < n; i++ {
 		runSeq(r, rng.Fork())
 	}
 	r.Extra["operations_by_result"] = opResults
+	// long histories: past 2^16 fid allocations with the root and early entries live
+	runLong(r, 65536, 90000, 0)
+	runLong(r, 8192, 85000, 997)
+	if r.Thorough() {
+		runLong(r, 65536, 400000, 4099)
+		runLong(r, 65536, 1200000, 0)
+	}
 }
